@@ -147,6 +147,7 @@ def run_merge(probes, fill=0):
                     'channel_positions': np.array(m.channel_positions),
                     'channel_probes': np.array(m.channel_probes),
                     'channel_mapping': np.array(m.channel_mapping),
+                    'similar_templates': np.array(m.similar_templates),
                     'n_templates': int(m.n_templates),
                 }
             except Exception as e:
